@@ -101,13 +101,16 @@ def refresher_bench(name, trefi=100, trp=2, trfc=3, postponing=1, tzqcs=None, zq
         bad("zqcs_before_tRP_after_prea", is_zq & (a_prea < trp))
         zqs = Signal(CW)
         zper = Signal(CW)
-        zphase = Signal(max=zq_period + 1)
+        # the ZQCS timer restarts when the calibration has been executed, and a calibration is only issued after a refresh:
+        # at least one ZQCS in every window of zq_period + postponing*tREFI + C cycles
+        zwin = zq_period + postponing * trefi + C
+        zphase = Signal(max=zwin + 1)
         zstart = Signal()
         CZ = C + postponing * trefi + 4
         top.sync += [
             If(is_zq, zqs.eq(zqs + 1)),
             If(~zstart, If(t == CZ - 1, zstart.eq(1))
-            ).Else(If(zphase == zq_period - 1, zphase.eq(0), zper.eq(zper + 1)).Else(zphase.eq(zphase + 1))),
+            ).Else(If(zphase == zwin - 1, zphase.eq(0), zper.eq(zper + 1)).Else(zphase.eq(zphase + 1))),
         ]
         bad("zqcs_not_recurring", zper > zqs + 1)
     covers = {}
@@ -152,9 +155,9 @@ T_SMALL = dict(tRP=2, tRCD=2, tWR=2, tWTR=2, tREFI=100, tRFC=3, tFAW=None, tCCD=
 T_FULL = dict(tRP=2, tRCD=2, tWR=2, tWTR=2, tREFI=100, tRFC=4, tFAW=6, tCCD=2, tRRD=2, tRC=6, tRAS=4)
 
 UNIT = {
-    "refresher_p1": (dict(postponing=1, L=14), 330, 460, "qt"),
-    "refresher_p2": (dict(postponing=2, L=14), 450, 700, "qt"),
-    "refresher_p1_zqcs": (dict(postponing=1, L=14, tzqcs=3, zq_period=150), 400, 600, "qt"),
+    "refresher_p1": (dict(postponing=1, L=14), 560, 800, "qt"),
+    "refresher_p2": (dict(postponing=2, L=14), 760, 1000, "qt"),
+    "refresher_p1_zqcs": (dict(postponing=1, L=14, tzqcs=3, zq_period=150), 560, 800, "qt"),
     "refresher_p4": (dict(postponing=4, L=20, trefi=100), 0, 1000, "t"),
     "refresher_p8_trefi130": (dict(postponing=8, L=20, trefi=130, trp=3, trfc=6), 0, 1400, "t"),
 }
